@@ -374,6 +374,8 @@ def run(ctx):
             if g[pos] != g[pos + 1]:
                 bads.append(g[:pos] + g[pos + 1] + g[pos] + g[pos + 2:])
         bads += [g[:-1], g + "1", g[:len(g) // 2] + g[len(g) // 2 + 1:]]
+        # the count of leading '1' digits is part of the value: one more, two more, one fewer
+        bads += ["1" + g, "11" + g] + ([g[1:]] if g.startswith("1") else [])
         cases += [{"k": "consumer", "kind": kind, "good": g, "bad": b} for b in bads if b != g]
     ctx.product("consumers-x-bad-checksums", cases, execute, chunk=4)
     # strings shorter than a checksum / empty / only look-alikes
